@@ -41,6 +41,27 @@ inductive Label
   | pollYield (i : IId)
   | awaitEnd (i : IId) (c : EId)
   | xAwaitEnd (e : EId)
+  | readBus (i : IId) (got : Option BId)
+  -- idle flag / wait_until_idle
+  | rlWake (b : BId)
+  | rlPoll (b : BId)
+  | wiBegin (x : Nat) (b : BId)
+  | wiJoined (x : Nat)
+  | wiIdle (x : Nat)
+  | wiRecheck (x : Nat)
+  | wiEnd (x : Nat)
+  | wiCancel (x : Nat)
+  -- stop / cancellation of the run loop
+  | stopBegin (x : Nat) (b : BId) (clear : Bool)
+  | stopEnd (x : Nat)
+  | stopNoop (x : Nat) (b : BId)
+  | rlExit (b : BId)
+  | cancelRl (b : BId)
+  | rlCancelled (b : BId)
+  | rlDropExit (b : BId)
+  -- expect
+  | expectBegin (x : Nat) (b : BId) (key : Key) (k : HId) (pred : Nat) (timeout : Nat)
+  | expectEnd (x : Nat) (got : Option EId)
   deriving Repr, Inhabited
 
 abbrev Checks := List (String × Bool)
@@ -83,6 +104,55 @@ def noDeadlineBefore (w : World) (t : Nat) : Bool :=
     let I := w.inst i
     I.deadline == 0 || I.st == .finished || I.st == .ended || t ≤ I.deadline
 
+/-- nothing queued and nothing pending or started in the history (`events_pending`, `events_started`, `qsize()`) -/
+def idleCond (w : World) (b : BId) : Bool :=
+  (w.bus b).queue.isEmpty && (w.bus b).hist.all fun e => (w.ev e).status == .completed
+
+def histAllComplete (w : World) (b : BId) : Bool := (w.bus b).hist.all fun e => (w.ev e).status == .completed
+
+/-- the oracle for `expect` predicates: `none` = the predicate raises, `some m` = include ∧ ¬exclude -/
+def expectMatch (pred : Nat) (e : EId) : Option Bool :=
+  match pred with
+  | 0 => some true
+  | 1 => some (e % 2 == 0)
+  | 2 => some (e % 3 != 0)
+  | 3 => if e % 4 == 1 then none else some true
+  | _ => some false
+
+/-- the waiter (external task) an expect handler belongs to, if it is still waiting without a match -/
+def expectOpen (w : World) (x : Nat) (k : HId) : Bool :=
+  match w.waiter x with
+  | .expecting _ _ k' _ got => k' == k && got.isNone
+  | _ => false
+
+/-- how the body of an `expect` handler instance ends: it evaluates the predicates only while the future is not done -/
+def expectOut (w : World) (i : IId) : Option Out :=
+  match (w.inst i).kind with
+  | .expect x pred =>
+    if expectOpen w x (w.inst i).hid then
+      (match expectMatch pred (w.inst i).ev with | none => some .raise | some _ => some .ret)
+    else some .ret
+  | _ => none
+
+/-- deadlines of blocked external tasks (stop grace period, expect timeout) -/
+def noWaiterDeadlineBefore (w : World) (t : Nat) : Bool :=
+  (List.range w.nx).all fun x =>
+    match w.waiter x with
+    | .stopping _ d _ => t ≤ d
+    | .expecting _ _ _ d got => d == 0 || got.isSome || t ≤ d
+    | _ => true
+
+/-- is the run loop at the root of this instance's executor chain being cancelled -/
+def rootCancelled (w : World) : Nat → IId → Bool
+  | 0, _ => false
+  | fuel+1, i =>
+    match (w.inst i).exec with
+    | .inst j => rootCancelled w fuel j
+    | .rl b => (w.bus b).cancelReq
+    | .ext => false
+
+def cancelDueAll (w : World) (i : IId) : Bool := cancelDue w i || rootCancelled w (w.ni + 1) i
+
 def checks (w : World) : Label → Checks
   | .newBus b _ _ _ => [("newBus: id is not the next bus id", b == w.nb)]
   | .on b _ _ _ => [("on: unknown bus", b < w.nb)]
@@ -93,7 +163,8 @@ def checks (w : World) : Label → Checks
      ("newEvent: supplied parent must be an existing event", match parent with | some p => p < w.ne | none => true)]
   | .tick t =>
     [("tick: time goes backwards", w.now ≤ t),
-     ("tick: passes an armed handler deadline without cancelling the handler", noDeadlineBefore w t)]
+     ("tick: passes an armed handler deadline without cancelling the handler", noDeadlineBefore w t),
+     ("tick: passes the deadline of a blocked stop() / expect() call", noWaiterDeadlineBefore w t)]
   | .rlCreate b =>
     [("rlCreate: unknown bus", b < w.nb),
      ("rlCreate: bus already running", !(w.bus b).running),
@@ -119,15 +190,16 @@ def checks (w : World) : Label → Checks
      ("take: queue empty or its head is another event", (w.bus b).queue.head? == some e),
      ("take: taker is neither this bus's polling run loop nor an awaiting handler with nothing in hand",
         match p with
-        | .rl b' => b' == b && (w.bus b).rl == .polling && (w.bus b).running
+        | .rl b' => b' == b && (w.bus b).rl == .polling     -- also after stop(): the pending get() still takes a queued item
         | .inst i => isAwaiting (w.inst i).st && (w.act (.inst i)).isNone && (w.inst i).took.isNone &&
-                     (match awaitedOf (w.inst i).st with | some c => !(w.ev c).signal | none => false)
+                     (match awaitedOf (w.inst i).st with | some c => !(w.ev c).signal | none => false) &&
+                     !(w.bus b).removed
         | .ext => false)]
   | .peBegin p b e =>
     [("peBegin: executor already has an open activation", (w.act p).isNone),
      ("peBegin: executor did not take this event from this bus / lock not free",
         match p with
-        | .rl b' => b' == b && (w.bus b).rl == .took e && w.lock.isNone
+        | .rl b' => b' == b && (w.bus b).rl == .took e && w.lock.isNone && (w.bus b).woke
         | .inst i => (w.inst i).took == some (b, e)
         | .ext => false),
      ("peBegin: recursion guard must raise here", !recursionTrips w b e)]
@@ -135,7 +207,7 @@ def checks (w : World) : Label → Checks
     [("peRecTrip: executor already has an open activation", (w.act p).isNone),
      ("peRecTrip: executor did not take this event from this bus / lock not free",
         match p with
-        | .rl b' => b' == b && (w.bus b).rl == .took e && w.lock.isNone
+        | .rl b' => b' == b && (w.bus b).rl == .took e && w.lock.isNone && (w.bus b).woke
         | .inst i => (w.inst i).took == some (b, e)
         | .ext => false),
      ("peRecTrip: recursion guard does not raise here", recursionTrips w b e)]
@@ -162,14 +234,16 @@ def checks (w : World) : Label → Checks
         | _ => (w.inst i).st == .running),
      ("hEnd: a sync handler cannot be cancelled", out != .cancelled || !(w.inst i).kind.isSync),
      ("hEnd: cancelled although neither its own nor an enclosing deadline has passed",
-        out != .cancelled || cancelDue w i),
+        out != .cancelled || cancelDueAll w i),
      ("hEnd: a forwarding handler ends without having dispatched",
-        !(w.inst i).kind.isForward || (w.inst i).fwdDone)]
+        !(w.inst i).kind.isForward || (w.inst i).fwdDone),
+     ("hEnd: an expect() handler returns unless its predicate raises while the call is still unresolved",
+        match expectOut w i with | some o => o == out | none => true)]
   | .hFinish i r =>
     [("hFinish: unknown instance", i < w.ni),
      ("hFinish: body has not ended (or, for a timeout/cancel before start, is not merely scheduled)",
         (w.inst i).st == .ended ||
-        ((w.inst i).st == .scheduled && (r == .errTimeout || r == .errCancelled) && cancelDue w i)),
+        ((w.inst i).st == .scheduled && (r == .errTimeout || r == .errCancelled) && cancelDueAll w i)),
      ("hFinish: recorded outcome does not fit how the body ended",
         (w.inst i).st != .ended ||
         (match (w.inst i).out, r with
@@ -178,7 +252,10 @@ def checks (w : World) : Label → Checks
         | .ret, .errHandler => true          -- returned an exception object
         | .raise, .errHandler => true
         | .cancelled, .errTimeout => ownExpired w i
-        | .cancelled, .errCancelled => ancestorExpired w (w.ni + 1) i
+        | .cancelled, .errCancelled => ancestorExpired w (w.ni + 1) i || rootCancelled w (w.ni + 1) i
+        -- the executor itself was cancelled between the end of the body and the recording of its outcome
+        | .ret, .errCancelled => ancestorExpired w (w.ni + 1) i || rootCancelled w (w.ni + 1) i
+        | .raise, .errCancelled => ancestorExpired w (w.ni + 1) i || rootCancelled w (w.ni + 1) i
         | _, _ => false)),
      ("hFinish: instance is not among the running ones of its executor's activation",
         match w.act (w.inst i).exec with | some A => A.running.contains i | none => false)]
@@ -199,8 +276,8 @@ def checks (w : World) : Label → Checks
     [("peAbort: executor has no open activation for this (bus, event)", actIs w p b e),
      ("peAbort: a handler of the activation is still unfinished",
         match w.act p with | some A => A.running.isEmpty | none => false),
-     ("peAbort: only an inline activation whose instance is being cancelled is abandoned",
-        match p with | .inst i => cancelDue w i | _ => false)]
+     ("peAbort: only an activation whose executor is being cancelled is abandoned",
+        match p with | .inst i => cancelDueAll w i | .rl b' => (w.bus b').cancelReq | .ext => false)]
   | .awaitBegin i _ =>
     [("awaitBegin: unknown instance", i < w.ni),
      ("awaitBegin: body is not executing", (w.inst i).st == .running),
@@ -217,10 +294,89 @@ def checks (w : World) : Label → Checks
   | .xAwaitEnd e =>
     [("xAwaitEnd: unknown event", e < w.ne),
      ("xAwaitEnd: completion signal is not set", (w.ev e).signal)]
+  | .readBus i got =>
+    [("readBus: unknown instance", i < w.ni),
+     ("readBus: body is not executing", (w.inst i).st == .running),
+     ("readBus: event_bus is the last bus of the event's path", got == (w.ev (w.inst i).ev).path.getLast?)]
+  | .rlWake b =>
+    [("rlWake: run loop has no event in hand or already resumed",
+        (match (w.bus b).rl with | .took _ => true | _ => false) && !(w.bus b).woke)]
+  | .rlPoll b =>
+    [("rlPoll: run loop is not polling a running bus", (w.bus b).rl == .polling && (w.bus b).running)]
+  | .wiBegin x b =>
+    [("wiBegin: unknown bus", b < w.nb),
+     ("wiBegin: task is already blocked in a bus call", w.waiter x == .idle),
+     ("wiBegin: bus was never started (no rlCreate)", (w.bus b).created)]
+  | .wiJoined x =>
+    [("wiJoined: queue.join() cannot have returned (unfinished was never 0 since the call)",
+        match w.waiter x with | .join _ z _ => z | _ => false)]
+  | .wiIdle x =>
+    [("wiIdle: _on_idle.wait() cannot have returned (idle flag never set since the wait began)",
+        match w.waiter x with | .idleWait _ z => z | _ => false)]
+  | .wiRecheck x =>
+    [("wiRecheck: wait_until_idle re-waits only if the bus is not idle or its history holds unfinished events",
+        match w.waiter x with | .check b => !((w.bus b).idle && histAllComplete w b) | _ => false)]
+  | .wiEnd x =>
+    [("wiEnd: wait_until_idle returns only when the idle flag is set and the history holds no pending/started event",
+        match w.waiter x with | .check b => (w.bus b).idle && histAllComplete w b | _ => false)]
+  | .wiCancel x =>
+    [("wiCancel: task is not blocked in wait_until_idle",
+        match w.waiter x with | .join .. | .idleWait .. | .check _ => true | _ => false)]
+  | .stopBegin x b _ =>
+    [("stopBegin: unknown bus", b < w.nb),
+     ("stopBegin: task is already blocked in a bus call", w.waiter x == .idle),
+     ("stopBegin: bus is not running (stop() would return at once)", (w.bus b).running)]
+  | .stopNoop _ b =>
+    [("stopNoop: unknown bus", b < w.nb),
+     ("stopNoop: bus is running", !(w.bus b).running)]
+  | .stopEnd x =>
+    [("stopEnd: stop() returns when the run loop has finished or its 0.1 s grace period is over",
+        match w.waiter x with
+        | .stopping b d _ => (w.bus b).rl == .exited || (w.bus b).rl == .none || d ≤ w.now
+        | _ => false)]
+  | .rlExit b =>
+    [("rlExit: only a polling run loop of a stopped or cancelled bus, or one whose shut-down queue is empty, leaves its loop",
+        (w.bus b).rl == .polling &&
+        (!(w.bus b).running || (w.bus b).cancelReq || ((w.bus b).shutdown && (w.bus b).queue.isEmpty)))]
+  | .cancelRl b =>
+    [("cancelRl: no live run loop task", (w.bus b).rl != .none && (w.bus b).rl != .exited)]
+  | .rlCancelled b =>
+    [("rlCancelled: only a cancelled run loop that holds a taken event but has not begun it is torn down here",
+        (w.bus b).cancelReq && (match (w.bus b).rl with | .took _ => true | _ => false))]
+  | .rlDropExit b =>
+    [("rlDropExit: only a run loop that took an event, has not resumed yet and finds its bus stopped drops the event and leaves",
+        (match (w.bus b).rl with | .took _ => true | _ => false) && !(w.bus b).woke && !(w.bus b).running)]
+  | .expectBegin x b _ _ _ _ =>
+    [("expectBegin: unknown bus", b < w.nb),
+     ("expectBegin: task is already blocked in a bus call", w.waiter x == .idle)]
+  | .expectEnd x got =>
+    [("expectEnd: expect() returns the event its handler resolved the future with, or times out at its deadline",
+        match w.waiter x with
+        | .expecting _ _ _ d g => g == got && (got.isSome || (d != 0 && d ≤ w.now))
+        | _ => false)]
 
-/-- release of the executor at the end (or recursion trip) of a run-loop activation -/
-def releaseRl (w : World) (b : BId) : World :=
-  (w.modBus b fun B => { B with rl := .polling }).setLock none
+/-- the run loop leaves `step()`: back to the loop head (or out of the loop when the bus was stopped meanwhile) -/
+def rlBack (w : World) (b : BId) : World :=
+  (w.modBus b fun B => { B with rl := if B.running then .polling else .exited }).setLock none
+
+/-- `_run_loop` after a completed `step()`: set the idle flag when nothing is queued, pending or started -/
+def rlIdleCheck (w : World) (b : BId) : World :=
+  if idleCond w b then w.modBus b fun B => { B with idle := true } else w
+
+/-- release of the executor at the normal end of a run-loop activation -/
+def releaseRl (w : World) (b : BId) : World := rlIdleCheck (rlBack w b) b
+
+/-- sticky observations of blocked `wait_until_idle` callers: `queue.join()` returns once the unfinished count
+    has been 0 at some moment, `_on_idle.wait()` once the flag has been set at some moment -/
+def wake (w : World) : World :=
+  (List.range w.nx).foldl (fun w x =>
+    match w.waiter x with
+    | .join b z i =>
+      let z' := z || (w.bus b).unfinished == 0
+      let i' := i || (w.bus b).idle
+      if z' != z || i' != i then w.setWaiter x (.join b z' i') else w
+    | .idleWait b false => if (w.bus b).idle then w.setWaiter x (.idleWait b true) else w
+    | _ => w) w
 
 /-- stage 1 of `dispatch`: parent from the handler context (skipped when forwarding the handled event itself) -/
 def dParent (w : World) (ctx : Option (EId × BId × HId)) (e : EId) : World :=
@@ -273,9 +429,11 @@ def applyFinish (w : World) (i : IId) (r : Fin) : World :=
     | none => w
   if r == .errTimeout then cancelPendingChildren w (w.ne + 1) I.ev else w
 
-def apply (w : World) : Label → World
+def apply0 (w : World) : Label → World
   | .newBus b par maxh wal => (w.setBus b { parallel := par, maxh := maxh, wal := wal }).setNb (w.nb + 1)
-  | .on b key k kind => w.modBus b fun B => { B with handlers := B.handlers ++ [{ key := key, hid := k, kind := kind }] }
+  | .on b key k kind => w.modBus b fun B =>
+      { B with handlers := B.handlers ++ [{ key := key, hid := k, kind := kind }],
+               everRegs := B.everRegs ++ [{ key := key, hid := k, kind := kind }] }
   | .off b key k => w.modBus b fun B => { B with handlers := B.handlers.eraseP fun r => r.key == key && r.hid == k }
   | .newEvent e ty parent to =>
     (w.setEv e { etype := ty, parent := parent, created := e, timeout := to }).setNe (w.ne + 1)
@@ -285,12 +443,12 @@ def apply (w : World) : Label → World
   | .take p b e =>
     let w := w.modBus b fun B => { B with queue := B.queue.tail }
     match p with
-    | .rl _ => w.modBus b fun B => { B with rl := .took e }
+    | .rl _ => w.modBus b fun B => { B with rl := .took e, woke := false }
     | .inst i => w.modInst i fun I => { I with took := some (b, e), iters := I.iters + 1 }
     | .ext => w
   | .peBegin p b e =>
     let w := match p with
-      | .rl _ => (w.modBus b fun B => { B with rl := .processing, idle := false }).setLock (some b)
+      | .rl _ => (w.modBus b fun B => { B with rl := .processing }).setLock (some b)
       | .inst i => w.modInst i fun I => { I with took := none }
       | .ext => w
     let hs := applicable w b e
@@ -299,7 +457,7 @@ def apply (w : World) : Label → World
     if hs.isEmpty then markComplete w e else w
   | .peRecTrip p _ _ =>
     match p with
-    | .rl b' => w.modBus b' fun B => { B with rl := .polling, idle := false }
+    | .rl b' => rlBack w b'
     | .inst i => w.modInst i fun I => { I with took := none, st := .running }
     | .ext => w
   | .hSched p i b e k =>
@@ -313,7 +471,17 @@ def apply (w : World) : Label → World
       | none => w
     w.setNi (w.ni + 1)
   | .hStart i => w.modInst i fun I => { I with st := .running }
-  | .hEnd i out => w.modInst i fun I => { I with st := .ended, out := out }
+  | .hEnd i out =>
+    let w' := w.modInst i fun I => { I with st := .ended, out := out }
+    -- an expect() handler resolves its caller's future with the first matching event
+    match (w.inst i).kind with
+    | .expect x pred =>
+      if expectOpen w x (w.inst i).hid && expectMatch pred (w.inst i).ev == some true then
+        (match w.waiter x with
+         | .expecting b key k d _ => w'.setWaiter x (.expecting b key k d (some (w.inst i).ev))
+         | _ => w')
+      else w'
+    | _ => w'
   | .hFinish i r => applyFinish w i r
   | .walWrite p b e ok =>
     let w := match w.act p with
@@ -329,11 +497,59 @@ def apply (w : World) : Label → World
     match p with
     | .rl b' => releaseRl w b'
     | _ => w
-  | .peAbort p _ _ => w.setAct p none
+  | .peAbort p _ _ =>
+    let w := w.setAct p none
+    match p with
+    | .rl b' => (w.modBus b' fun B => { B with rl := .exited, running := false, cancelReq := false }).setLock none
+    | _ => w
   | .awaitBegin i c => w.modInst i fun I => { I with st := .awaiting c, iters := 0 }
   | .pollYield i => w.modInst i fun I => { I with iters := I.iters + 1 }
   | .awaitEnd i _ => w.modInst i fun I => { I with st := .running }
   | .xAwaitEnd _ => w
+  | .readBus _ _ => w
+  | .rlWake b => w.modBus b fun B => { B with idle := false, woke := true }
+  | .rlPoll b => rlIdleCheck w b
+  | .wiBegin x b => w.setWaiter x (.join b ((w.bus b).unfinished == 0) (w.bus b).idle)
+  | .wiJoined x =>
+    (match w.waiter x with | .join b _ i => w.setWaiter x (.idleWait b (i || (w.bus b).idle)) | _ => w)
+  | .wiIdle x =>
+    (match w.waiter x with | .idleWait b _ => w.setWaiter x (.check b) | _ => w)
+  | .wiRecheck x =>
+    (match w.waiter x with
+     | .check b => (w.modBus b fun B => { B with idle := false }).setWaiter x (.idleWait b false)
+     | _ => w)
+  | .wiEnd x => w.setWaiter x .idle
+  | .wiCancel x => w.setWaiter x .idle
+  | .stopBegin x b clear =>
+    (w.modBus b fun B => { B with running := false, shutdown := B.created }).setWaiter x
+      (.stopping b (w.now + w.cfg.stopGrace) clear)
+  | .stopNoop _ _ => w
+  | .stopEnd x =>
+    (match w.waiter x with
+     | .stopping b _ clear =>
+       let w := w.modBus b fun B =>
+         { B with cancelReq := B.rl != .exited && B.rl != .none, idle := B.created || B.idle }
+       let w := if clear then w.modBus b fun B => { B with hist := [], handlers := [], removed := true } else w
+       w.setWaiter x .idle
+     | _ => w)
+  | .rlExit b =>
+    -- the idle check is made only on the ordinary way out (`_get_next_event` returned None because the bus was stopped)
+    let w := if !(w.bus b).running && !(w.bus b).cancelReq then rlIdleCheck w b else w
+    w.modBus b fun B => { B with rl := .exited, running := false, cancelReq := false }
+  | .cancelRl b => w.modBus b fun B => { B with cancelReq := true }
+  | .rlCancelled b => w.modBus b fun B => { B with rl := .exited, running := false, cancelReq := false }
+  | .rlDropExit b => (rlIdleCheck w b).modBus b fun B => { B with rl := .exited, running := false, cancelReq := false }
+  | .expectBegin x b key k pred to =>
+    (w.modBus b fun B => { B with handlers := B.handlers ++ [{ key := key, hid := k, kind := .expect x pred }],
+                                  everRegs := B.everRegs ++ [{ key := key, hid := k, kind := .expect x pred }] }).setWaiter x
+      (.expecting b key k (if to == 0 then 0 else w.now + to) none)
+  | .expectEnd x _ =>
+    (match w.waiter x with
+     | .expecting b key k _ _ =>
+       (w.modBus b fun B => { B with handlers := B.handlers.eraseP fun r => r.key == key && r.hid == k }).setWaiter x .idle
+     | _ => w)
+
+def apply (w : World) (l : Label) : World := wake (apply0 w l)
 
 def guard (w : World) (l : Label) : Bool := (checks w l).ok
 
